@@ -674,7 +674,7 @@ def run(ctx):
         "leader_sequences": len(louts), "leader_steps_compared": steps, "leader_ops": dict(ophist), "leader_mismatches": len(l_bad),
         "samples": [cases[3], (outs.get(3) or {}).get("events"), seqs[0]["ops"][:6]],
         "theorems": ["C33_one_relocation_per_address", "C33_duplicate_notification_ignored", "C33_single_outcome_per_departure",
-                     "C33_single_failed_event_per_departure", "C33_registered_job_unpublished", "C33_items_relocated_or_failed", "C33_abort_reports_everything"],
+                     "C33_single_failed_event_per_departure", "C33_registered_job_unpublished", "C33_items_relocated_or_failed", "C33_abort_reports_everything", "C33_finish_releases_job_last"],
     })
 
 
